@@ -53,7 +53,11 @@ def run(ctx):
                     nh = rng.choice([0, 1, 2, 5, 20]) if k <= 12 else rng.choice([0, 1, 3])
                     hist = [gen_red(rng, k) for _ in range(nh)]
                     samples = [-1.0, 0.0, 1.0, rng.uniform(-1, 1), rng.uniform(-1, 1), 1 - 1e-9]
-                    cases.append({"fn": "symqsp", "parity": parity, "initial": [hexf(x) for x in gen_red(rng, k)],
+                    init = gen_red(rng, k)
+                    int_init = rng.random() < 0.3
+                    if int_init:
+                        init = [float(rng.choice([0, 0, 1, -1, 2])) for _ in range(k)]
+                    cases.append({"fn": "symqsp", "parity": parity, "initial": [hexf(x) for x in init], "int_init": int_init,
                                   "history": [[hexf(x) for x in h] for h in hist], "samples": [hexf(x) for x in samples],
                                   "touch_between": rng.random() < 0.5, "timeout": 600})
     impl = run_impl(cases, timeout=3000)
